@@ -541,7 +541,7 @@ func Run(r *evid.Run) {
 		}
 	}
 
-	n := r.Pick(260, 5000)
+	n := r.Pick(260, 25000)
 	sg := &specGen{rng: rand.New(rand.NewSource(r.Seed)), worlds: worlds}
 	verbose := false
 
